@@ -120,7 +120,10 @@ fn adjust_case(id: &str, orig: &[Tok], adj: &[Tok]) {
 fn run_c11(r: &mut Rng, n: u64) {
     let alpha = b"ABCDEFGHIJKLMNOPQRSTUVWXYZabcdefghijklmnopqrstuvwxyz0123456789+/";
     let mut k = 0;
-    for w in [&b"!A"[..], b"////////////f", b"ggggggggggggI", b"ggggggggggggH", b"gggggggggggggg", b"", b"g", b"B", b"\x7fA"] { vlq_parse_case(&format!("x{}", k), w); k += 1; }
+    for w in [&b"!A"[..], b"////////////f", b"ggggggggggggI", b"ggggggggggggH", b"gggggggggggggg", b"", b"g", b"B", b"\x7fA",
+              b"gggggggggggggA", b"2ggggggggggggA", b"AgggggggggggggA", b"ggggggggggggA", b"ggggggggggggQ", b"ggggggggggggggggggggA", b"hgggggggggggggA"] { vlq_parse_case(&format!("x{}", k), w); k += 1; }
+    // every length 1..16 of zero-payload continuation digits closed by each kind of last digit
+    for n in 1..17 { for last in [b'A', b'B', b'P', b'Q', b'f'] { let mut w = vec![b'g'; n]; w.push(last); vlq_parse_case(&format!("x{}", k), &w); k += 1; let mut w2 = vec![b'A']; w2.extend(vec![b'h'; n]); w2.push(last); vlq_parse_case(&format!("x{}", k), &w2); k += 1; } }
     let ext: Vec<u8> = alpha.iter().cloned().chain([b'!', b'-', b'_', 0x7f, b'=']).collect();
     for &a in &ext { vlq_parse_case(&format!("x{}", k), &[a]); k += 1; for &b in &ext { vlq_parse_case(&format!("x{}", k), &[a, b]); k += 1; } }
     for p in 0..62 { for d in [-1i64, 0, 1] { let v = (1i64 << p) + d; if v.unsigned_abs() < (1u64 << 62) { vlq_gen_case(&format!("x{}", k), &[v]); k += 1; vlq_gen_case(&format!("x{}", k), &[-v]); k += 1; } } }
@@ -237,7 +240,7 @@ fn run_rewrite(r: &mut Rng, n: u64) {
     for i in 0..n {
         let sm = gen_map(r, false); let input = map_in(&sm);
         let wn = r.below(2) == 0; let wc = r.below(2) == 0;
-        let prefixes: Vec<&str> = match r.below(8) { 0 => vec!["/abs"], 1 => vec!["/abs/", "http://x"], 2 => vec!["~"], 3 => vec!["~", "/abs"], 4 => vec!["http://x", "~", "/abs/e"], _ => vec![] };
+        let prefixes: Vec<&str> = match r.below(11) { 0 => vec!["/abs"], 1 => vec!["/abs/", "http://x"], 2 => vec!["~"], 3 => vec!["~", "/abs"], 4 => vec!["http://x", "~", "/abs/e"], 5 => vec!["/abs", "e"], 6 => vec!["/abs/", "c.js", "e/"], _ => vec![] };
         let opts = sourcemap::RewriteOptions { with_names: wn, with_source_contents: wc, strip_prefixes: &prefixes, ..Default::default() };
         let out = match catch_unwind(AssertUnwindSafe(|| sm.rewrite(&opts))) { Ok(Ok(m)) => format!("ok {}", map_obs(&m)), Ok(Err(e)) => format!("err {}", err_name(&e)), Err(_) => "panic".into() };
         println!("r{}\trewrite\t{}\t{}\t{}\t{}\t{}", i, input, wn as u8, wc as u8, prefixes.iter().map(|p| hex(p.as_bytes())).collect::<Vec<_>>().join(","), out);
@@ -348,27 +351,39 @@ fn run_hdr(r: &mut Rng, n: u64) {
     }
 }
 
+/// sections at strictly increasing offsets whose tokens stay before the next offset; nested indexes to the given depth.
+/// returns (sections, description "l:c@<map>" joined by the depth's delimiter, number of lines occupied)
+fn gen_sections(r: &mut Rng, depth: usize, level: usize) -> (Vec<sourcemap::SourceMapSection>, String, u32) {
+    let delim = ['#', '%', '&'][level];
+    let nsec = 1 + r.below(if level == 0 { 4 } else { 3 }); let mut off = (r.below(3) as u32, r.below(5) as u32); let mut secs = vec![]; let mut descr = vec![];
+    for _ in 0..nsec {
+        let (dm, d, extent) = if depth > 0 && r.below(4) == 0 {
+            let (inner, d, ext) = gen_sections(r, depth - 1, level + 1);
+            (sourcemap::DecodedMap::Index(sourcemap::SourceMapIndex::new(None, inner)), format!("I[{}]", d), ext)
+        } else { let sm = gen_map(r, false); let d = format!("R{}", map_in(&sm)); (sourcemap::DecodedMap::Regular(sm), d, 20) };   // tokens of gen_map stay below line 20
+        descr.push(format!("{}:{}@{}", off.0, off.1, d));
+        secs.push(sourcemap::SourceMapSection::new(off, None, Some(dm)));
+        off = (off.0 + extent + r.below(3) as u32, r.below(5) as u32);
+    }
+    (secs, descr.join(&delim.to_string()), off.0 + 1)
+}
 fn run_index(r: &mut Rng, n: u64) {
     for i in 0..n {
-        let nsec = 1 + r.below(4); let mut off = (r.below(3) as u32, r.below(5) as u32); let mut secs = vec![]; let mut descr = vec![];
-        for _ in 0..nsec {
-            let sm = gen_map(r, false); descr.push(format!("{}:{}@{}", off.0, off.1, map_in(&sm)));
-            secs.push(sourcemap::SourceMapSection::new(off, None, Some(sourcemap::DecodedMap::Regular(sm))));
-            off = (off.0 + 20 + r.below(3) as u32, r.below(5) as u32);     // tokens of gen_map stay below line 20
-        }
+        let (secs, descr, extent) = gen_sections(r, 2, 0);
         let idx = sourcemap::SourceMapIndex::new(Some("f".into()), secs);
         let flat = catch_unwind(AssertUnwindSafe(|| idx.flatten()));
         let flat_s = match &flat { Ok(Ok(m)) => format!("ok {}", map_obs(m)), Ok(Err(e)) => format!("err {}", err_name(e)), Err(_) => "panic".into() };
         let view = |t: &sourcemap::Token| format!("{}/{}/{}/{}", opt_hex(t.get_source()), t.get_src_line(), t.get_src_col(), opt_hex(t.get_name()));
         let mut qs = vec![]; let mut outs = vec![];
-        for _ in 0..10 { let q = (r.below(90) as u32, r.below(12) as u32 * if r.below(20) == 0 { 1000 } else { 1 }); qs.push(format!("{}:{}", q.0, q.1));
+        for _ in 0..10 { let q = (r.below(extent as u64 + 3) as u32, r.below(12) as u32 * if r.below(20) == 0 { 1000 } else { 1 }); qs.push(format!("{}:{}", q.0, q.1));
             let a = match catch_unwind(AssertUnwindSafe(|| idx.lookup_token(q.0, q.1).map(|t| view(&t)))) { Ok(Some(v)) => v, Ok(None) => "none".into(), Err(_) => "panic".into() };
             let b = match &flat { Ok(Ok(m)) => match catch_unwind(AssertUnwindSafe(|| m.lookup_token(q.0, q.1).map(|t| view(&t)))) { Ok(Some(v)) => v, Ok(None) => "none".into(), Err(_) => "panic".into() }, _ => "noflat".into() };
             outs.push(format!("{}~{}", a, b)); }
-        println!("r{}\tindex\t{}\t{}\t{}\t{}", i, descr.join("#"), qs.join(","), flat_s, outs.join(","));
+        println!("r{}\tindex\t{}\t{}\t{}\t{}", i, descr, qs.join(","), flat_s, outs.join(","));
     }
 }
-fn run_fname(r: &mut Rng, n: u64) {
+fn run_fname(r: &mut Rng, n: u64) { run_fname_gen(r, n, false) }
+fn run_fname_gen(r: &mut Rng, n: u64, any_col: bool) {
     let words = ["function", "a", "ab", "\u{e9}", "a\u{e9}", "\u{1D49C}x", "$", "_1", "x\u{200d}y", "(", ")", "{", "}", "\u{1F44C}", "1", " ", "\t", "\u{a0}", ";", "function", "function", "function", "var", ","];
     let cands = ["a", "ab", "\u{e9}", "a\u{e9}", "function", "\u{1D49C}x", "x\u{200d}y", "1a", "a b", "", "_1", "$"];
     for i in 0..n {
@@ -381,7 +396,9 @@ fn run_fname(r: &mut Rng, n: u64) {
                 if r.below(10) < if long { 5 } else { 8 } { toks.push(Tok { dl: li as u32, dc: u, sl: 0, sc: 0, src: 0, name: if r.below(10) < 8 { r.below(4) as u32 } else { !0 }, range: false }); wordat.push((li as u32, u, w.to_string())); }
                 if r.below(12) == 0 { // a token inside the word, on a scalar boundary
                     let k = r.below(w.chars().count() as u64 + 1) as usize; let pre: u32 = w.chars().take(k).map(|c| c.len_utf16() as u32).sum();
-                    toks.push(Tok { dl: li as u32, dc: u + pre, sl: 0, sc: 0, src: 0, name: r.below(4) as u32, range: false }); }
+                    toks.push(Tok { dl: li as u32, dc: u + pre, sl: 0, sc: 0, src: 0, name: r.below(4) as u32, range: false });
+                    // C05 only: any column, also strictly inside a surrogate pair, and the same column twice
+                    if any_col { let c = u + r.below(w.encode_utf16().count() as u64 + 1) as u32; toks.push(Tok { dl: li as u32, dc: c, sl: 0, sc: 0, src: 0, name: r.below(4) as u32, range: false }); if r.below(2) == 0 { toks.push(Tok { dl: li as u32, dc: c, sl: 1, sc: 0, src: 0, name: !0, range: false }); } } }
                 s.push_str(w); u += w.encode_utf16().count() as u32;
                 if r.below(3) > 0 { s.push(' '); u += 1; }
             }
@@ -398,7 +415,7 @@ fn run_fname(r: &mut Rng, n: u64) {
             let name = match here { Some(w) if r.below(10) < 8 => w, _ => cands[r.below(cands.len() as u64) as usize].to_string() };
             let out = match catch_unwind(AssertUnwindSafe(|| sv.get_original_function_name(sm.get_token(ti).unwrap(), &name).map(|s| s.to_string()))) {
                 Ok(Some(s)) => s.trim_start_matches('n').to_string(), Ok(None) => "none".into(), Err(_) => "panic".into() };
-            println!("r{}_{}\tfname\t{}\t{}\t{}\t{}\t{}", i, q, hex(text.as_bytes()), toks_str(&sorted), ti, hex(name.as_bytes()), out);
+            println!("r{}_{}\t{}\t{}\t{}\t{}\t{}\t{}", i, q, if any_col { "fname_any" } else { "fname" }, hex(text.as_bytes()), toks_str(&sorted), ti, hex(name.as_bytes()), out);
         }
     }
 }
@@ -456,7 +473,7 @@ fn run_decode(r: &mut Rng, n: u64, with_faults: bool) {
                 if hit && fault == 7 { own_vlq(1, &mut seg); fault_done = true; }                       // 1 -> 2, 4 -> 5 (maybe valid), 5 -> 6
                 if hit && fault == 8 { let at = r.below(seg.len() as u64 + 1) as usize; seg.insert(at, ['!', ' ', '=', '-', '_', '\u{e9}', '\u{7f}', '\u{0}', '"', '\\'][r.below(10) as usize]); fault_done = true; }   // a foreign byte anywhere in the segment
                 if hit && fault == 9 { seg.push('g'); fault_done = true; }                              // continuation digit at the end
-                if hit && fault == 10 { seg.push_str("gggggggggggggB"); fault_done = true; }           // 14 digits
+                if hit && fault == 10 { seg.push_str(["gggggggggggggB", "gggggggggggggA", "2ggggggggggggA", "ggggggggggggggggA", "hggggggggggggggB"][r.below(5) as usize]); fault_done = true; }   // 14+ digits, also with zero payloads only
                 if hit && fault == 11 { seg.push_str("////////////f"); fault_done = true; }            // 13 digits whose top bits are lost
                 mappings.push_str(&seg);
             }
@@ -468,7 +485,7 @@ fn run_decode(r: &mut Rng, n: u64, with_faults: bool) {
         let file = match r.below(4) { 0 => None, 1 => Some(serde_json::json!(12)), _ => Some(serde_json::json!("out.js")) };
         if let Some(f) = &file { keys.push(("file", f.clone())); }
         let omit_sources = nsrc == 0 && r.below(2) == 0; if !omit_sources { keys.push(("sources", serde_json::json!(sources))); }
-        let root = match r.below(4) { 0 => Some(""), 1 => Some("root"), 2 => Some("webpack:///"), _ => None };
+        let root = match r.below(8) { 0 => Some(""), 1 => Some("root"), 2 => Some("webpack:///"), 3 => Some("/"), 4 => Some("//"), 5 => Some("http://h/r/"), _ => None };
         if let Some(x) = root { keys.push(("sourceRoot", serde_json::json!(x))); }
         let contents: Option<Vec<Option<String>>> = if r.below(2) == 0 { Some((0..(nsrc + r.below(2) as usize)).map(|k| if r.below(3) == 0 { None } else { Some(format!("c{}", k)) }).collect()) } else { None };
         if let Some(c) = &contents { keys.push(("sourcesContent", serde_json::json!(c))); }
@@ -862,6 +879,7 @@ fn main() {
         "decode" => run_decode(&mut r, n, false),
         "decode_faults" => run_decode(&mut r, n, true),
         "fname" => run_fname(&mut r, n),
+        "fname_any" => run_fname_gen(&mut r, n, true),
         "setters" => run_setters(&mut r, n),
         "builder" => run_builder(&mut r, n),
         "ram" => run_ram(&mut r, n),
